@@ -79,6 +79,11 @@ func (k Keeper) DistributeReward(ctx context.Context) error {
 		return err
 	}
 
+	// the first block of a chain started from an exported state carries no last commit
+	if len(sdkctx.VoteInfos()) == 0 {
+		return nil
+	}
+
 	var totalPower int64 // previous block
 	for _, voteInfo := range sdkctx.VoteInfos() {
 		totalPower += voteInfo.Validator.Power
